@@ -212,3 +212,111 @@ def generate(rng, *, n_inputs=None, n_statements=None, rows=None, carriers=("df"
         "viral": False, "time_period": False, "nrows": nrows, "analytic": " over (" in script, "dag": True,
     }
     return {"script": script, "structures": structures, "data": data, "meta": meta}
+
+
+# ---------------------------------------------------------------- systematic pairwise reader positions
+
+def _slots():
+    """(template index, slot, kind) for every dataset slot and every scalar slot of DATASET_TEMPLATES."""
+    ds, sc = [], []
+    for ti, (tpl, _shape, kinds) in enumerate(DATASET_TEMPLATES):
+        for slot, kind in kinds.items():
+            (sc if slot in ("s", "t") else ds).append((ti, slot, kind))
+    return ds, sc
+
+
+_space = {}
+
+
+def pairwise_space(per_kind=2):
+    if per_kind not in _space:
+        _space[per_kind] = _pairwise_space(per_kind)
+    return _space[per_kind]
+
+
+def _pairwise_space(per_kind=2):
+    """Descriptors of three-statement scripts `P; reader1(P); reader2(P)`: producer kind x position of the
+    first reader x position of the second reader x persistence of the three statements x textual order.
+    Positions are represented by `per_kind` (template, slot) representatives of each position kind."""
+    import itertools
+
+    ds, sc = _slots()
+
+    def reps(slots):
+        by = {}
+        for s in slots:
+            by.setdefault(s[2], []).append(s)
+        out = []
+        for kind in sorted(by):
+            lst = by[kind]
+            step = max(1, len(lst) // per_kind)
+            out += lst[::step][:per_kind]
+        return out
+
+    dsr, scr = reps(ds), reps(sc)
+    space = []
+    for prod, rr in (("input", dsr), ("result", dsr), ("scalar", scr)):
+        for r1 in rr:
+            for r2 in rr:
+                persists = itertools.product("Pn", repeat=2 if prod == "input" else 3)
+                for pv in persists:
+                    n_lines = 2 if prod == "input" else 3
+                    for order in itertools.permutations(range(n_lines)):
+                        space.append((prod, r1[:2], r2[:2], "".join(pv), order))
+    return space
+
+
+def pairwise_script(desc):
+    """The workload of one pairwise descriptor (deterministic)."""
+    from .gen import csv_text
+
+    prod, (t1, s1), (t2, s2), pv, order = desc
+    rng = random.Random(t1 * 1009 + t2 * 31 + len(prod))
+    inputs = ["DS_1", "DS_2", "DS_3"]
+    pname = {"input": "DS_3", "result": "P_1", "scalar": "sc_1"}[prod]
+    lines, defs_used, edges = [], set(), []
+
+    def reader(name, ti, slot, persistent):
+        tpl, shape, kinds = DATASET_TEMPLATES[ti]
+        vals = {"k": "1"}
+        fill_ds = iter(["DS_1", "DS_2", "DS_1"])
+        for sl in kinds:
+            if sl == slot:
+                vals[sl] = pname
+            elif sl in ("s", "t"):
+                vals[sl] = str(rng.choice([1, 2, 3, 1.5]))
+            else:
+                vals[sl] = next(fill_ds)
+        expr = tpl.format(**vals)
+        for d in DEFS:
+            if d in expr:
+                defs_used.add(d)
+        edges.append((pname, name, kinds[slot]))
+        return "%s %s %s;" % (name, "<-" if persistent else ":=", expr)
+
+    stm = []
+    pi = 0
+    if prod == "result":
+        stm.append("P_1 %s DS_3 * 2;" % ("<-" if pv[0] == "P" else ":="))
+        pi = 1
+    elif prod == "scalar":
+        stm.append("sc_1 %s 3;" % ("<-" if pv[0] == "P" else ":="))
+        pi = 1
+    stm.append(reader("A_1", t1, s1, pv[pi] == "P"))
+    stm.append(reader("B_1", t2, s2, pv[pi + 1] == "P"))
+    if "P" not in pv:
+        stm[-1] = stm[-1].replace(" := ", " <- ", 1)
+    written = [stm[i] for i in order]
+    script = "\n".join([DEFS[d] for d in sorted(defs_used)] + written) + "\n"
+    structures = {"datasets": [{"name": n, "DataStructure": COMPS} for n in inputs]}
+    data = {}
+    for i, n in enumerate(inputs):
+        rs = _rows(random.Random(i + 7), 4)
+        data[n] = {"kind": "df", "columns": COLS, "rows": rs} if i != 1 else {"kind": "csv_text", "text": csv_text(COLS, rs)}
+    kinds = [k for (_p, _c, k) in edges]
+    meta = {"n_inputs": 3, "n_statements": len(stm), "inputs_used": inputs, "edges": sorted((p, c) for (p, c, _k) in edges),
+            "edge_kinds": sorted(set(kinds)),
+            "reader_profiles": ["%s:%s" % ({"input": "I", "result": "R", "scalar": "sc"}[prod], ">".join(kinds))],
+            "persist": pv, "order": list(order), "shapes": {}, "viral": False, "time_period": False, "nrows": {}, "analytic": " over (" in script,
+            "dag": True, "pairwise": True}
+    return {"script": script, "structures": structures, "data": data, "meta": meta}
